@@ -247,3 +247,42 @@ def s_env_is_int(ex, args, kwargs, st, node):
 
 
 SYMBOLIC.update({"env_is_int": s_env_is_int})
+
+
+def uf_list(name, *args):
+    return UF_TABLE[name](*args)
+
+
+def s_uf_list(ex, args, kwargs, st, node):
+    nm = z3.simplify(ex.as_val(args[0], st, node).e).as_string()
+    vals = [ex.as_val(a, st, node).any() for a in args[1:]]
+    f = z3.Function(nm, *([Any] * len(vals)), ListS)
+    return Val("l", f(*vals))
+
+
+SYMBOLIC.update({"uf_list": s_uf_list})
+
+
+def is_str_list(xs):
+    return isinstance(xs, (list, tuple)) and all(isinstance(x, str) for x in xs)
+
+
+def s_is_str_list(ex, args, kwargs, st, node):
+    v = ex.as_val(args[0], st, node)
+    i = z3.Const("i!isl", z3.IntSort())
+    l = v.payload("l")
+    return VBool(z3.And(v.is_tag("l"), z3.ForAll([i], z3.Implies(z3.And(0 <= i, i < z3.Length(l)), recog("s")(l[i])))))
+
+
+def is_int_list(xs):
+    return isinstance(xs, (list, tuple)) and all(isinstance(x, int) and not isinstance(x, bool) for x in xs)
+
+
+def s_is_int_list(ex, args, kwargs, st, node):
+    v = ex.as_val(args[0], st, node)
+    i = z3.Const("i!iil", z3.IntSort())
+    l = v.payload("l")
+    return VBool(z3.And(v.is_tag("l"), z3.ForAll([i], z3.Implies(z3.And(0 <= i, i < z3.Length(l)), recog("i")(l[i])))))
+
+
+SYMBOLIC.update({"is_str_list": s_is_str_list, "is_int_list": s_is_int_list})
